@@ -1,6 +1,7 @@
 """Registry: which stages decide which property, plus the evidence metadata."""
 from vcheck import build, run_rt, log
 import bedb
+import labchecks
 
 
 def rt_stage(prop, tier, seed, replay):
@@ -189,4 +190,30 @@ PROPS["C08"] = {
             "explicit/legacy/undeclared arguments; distinct = (decision source, reaches a cycle?, parameter kind, expected marker, graph size)",
     "assumptions": COMMON_ASSUME + ["the IR generator stays inside the validity envelope of DESIGN.md Appendix A",
                                    "observation = attributes of the emitted server traits (what conjure-macros turns into SafeParams inserts, see C09)"],
+}
+
+PROPS["C20"] = {
+    "stages": [bedb.c20_stage], "engine": "gen",
+    "technique": "runtime monitoring of the real generator across independent process executions: byte-level differential of the emitted trees (library entry vs "
+                 "conjure-rust CLI, different cwd/TMPDIR/HOME/LANG/TZ, per-process hash seeds) + strace file-syscall monitor for containment",
+    "level": "exploration",
+    "level_text": "Held on every definition x configuration: four separate process executions (two through the library entry point, two through the CLI with the "
+                  "equivalent flags) produced byte-identical file trees, and every created/written/renamed/removed path observed by strace lay beneath the requested output directory.",
+    "rule": "random definitions (3-40 types, 0-3 services, errors) and the 4 IR files in the repository x {exhaustive, serializeEmptyCollections, stripPrefix, crate} "
+            "configurations x 4 process runs; distinct = (origin, configuration)",
+    "assumptions": COMMON_ASSUME + ["strace -f -e trace=%file sees every path-taking system call of the CLI process",
+                                   "library flags passed by genrun are the documented equivalents of the CLI flags (see conjure-rust/src/main.rs)"],
+}
+
+PROPS["C03"] = {
+    "stages": [labchecks.c03_stage], "engine": "lab",
+    "technique": "runtime monitoring of the real generator and rustc: random hostile definitions -> conjure_codegen -> lab crates whose driver names every declared item "
+                 "by module path -> cargo build; generator result and compiler diagnostics are the observed events; pinned micro-definitions for known findings",
+    "level": "exploration",
+    "level_text": "Held on every random definition x configuration: generation reported success and the emitted module tree compiled with every declared item reachable; "
+                  "known non-compiling shapes are carried as pinned witnesses.",
+    "rule": "random definitions (25-55 types, 2-4 services, errors, nested/keyword packages, Rust keywords and prelude names as identifiers) x {exhaustive, "
+            "serializeEmptyCollections, stripPrefix}; distinct = (size/config shape, type kinds, argument kind x type kind)",
+    "assumptions": COMMON_ASSUME + ["the IR generator only emits definitions the Conjure compiler accepts (DESIGN.md Appendix A); doubtful shapes are left out",
+                                   "rustc + the runtime crates of the working tree are the judge of 'compiles'"],
 }
